@@ -26,7 +26,8 @@ DICT = {'fz_parse': 'xml.dict', 'fz_dtd': 'xml.dict', 'fz_xsd': 'xsd.dict', 'fz_
 # finding id -> regex on the sanitizer/oracle report (known findings; see known_findings.json).  Both classes are excluded from the campaigns by
 # construction (LSan suppression file / input filter in fz_regex, counted) and their witnesses are replayed without the exclusion on every run.
 KNOWN = {'C01-dtd-contentspec-leak': r'LeakSanitizer: detected memory leaks[^\n]*DTDScanner::scan(Children|Mixed)',
-         'C01-regex-nested-closure-recursion': r'stack-overflow[^\n]*RegularExpression::'}
+         'C01-regex-nested-closure-recursion': r'stack-overflow[^\n]*RegularExpression::',
+         'C01-regex-nongreedy-zero-width-loop': r'libFuzzer: timeout[^\n]*RegularExpression::match'}
 SUPP = os.path.join(xv.VERIF, 'harness', 'lsan_known.supp')
 
 def cfg_suffix(i):
@@ -178,7 +179,7 @@ def hostile_lane(ctx):
                 S.evaluations += 1; S.labels['hostile:' + name] += 1; S.nontrivial.add('hostile:%s:%s:%s' % (name, api, scanner))
                 try:
                     resp = ex.request(req, timeout=90)
-                    if 'EXC\tFOREIGN' in resp:
+                    if xv.has_foreign(resp):
                         S.failures.append({'case': {'hostile': name, 'api': api, 'feat': feat, 'tier': ctx.tier}, 'detail': 'foreign exception from parse() on hostile document %s' % name})
                 except xv.ExecutorDied as e:
                     if e.rc in (-9,) and 'ERROR' not in e.stderr: S.inconclusive += 1; S.labels['hostile-watchdog:' + name] += 1; continue
@@ -234,7 +235,7 @@ def replay(case, ctx):
                 if k.startswith('ent:'): req[k] = v.encode()
             try:
                 resp = ex.request(req, timeout=480)
-                return ('EXC\tFOREIGN' not in resp), 'foreign exception' if 'EXC\tFOREIGN' in resp else 'ok'
+                return (not xv.has_foreign(resp)), 'foreign exception' if xv.has_foreign(resp) else 'ok'
             except xv.ExecutorDied as e:
                 if e.rc == -9 and 'ERROR' not in e.stderr: return True, 'inconclusive: watchdog'
                 return False, 'executor died rc=%s\n%s' % (e.rc, e.stderr[-3000:])
@@ -248,15 +249,29 @@ def replay(case, ctx):
             if not ok and kind == 'crash': return False, 'config %d: %s' % (i, detail)
         return True, 'ok'
     data = base64.b64decode(case['input_b64'])
-    ok, detail, kind = replay_input(case['target'], data, strict=bool(case.get('known')))
+    ok, detail, kind = replay_input(case['target'], data, strict=bool(case.get('known')), **({'timeout': case['timeout_s'] + 20, 'libfuzzer_timeout': case['timeout_s']} if case.get('timeout_s') else {}))
     if ok: return True, 'ok'
     if kind in ('timeout', 'oom') and not case.get('hang'): return True, 'inconclusive: ' + kind
     if kind == 'oom': return True, 'inconclusive: oom'
     return False, detail
 
+def nongreedy_nullable(pat):
+    """mirror of the input filter in harness/fz_regex.cpp: a non-greedy closure whose operand is not a plain character, '.', or a class"""
+    for m in re.finditer(rb'(\*|\+|\{[^{}]*\})\?', pat):
+        k = m.start()
+        if k == 0: return True
+        o = pat[k - 1]
+        simple = (chr(o).isalnum() or o in b'.]' or o >= 0x80) and not (k >= 2 and pat[k - 2] == 0x5C)
+        if not simple: return True
+    return False
+
 def classify(case, detail):
     for fid, rx in KNOWN.items():
-        if re.search(rx, detail): return fid
+        if re.search(rx, detail):
+            if fid == 'C01-regex-nongreedy-zero-width-loop':
+                body = base64.b64decode(case.get('input_b64', ''))[:-2]
+                if case.get('target') != 'fz_regex' or not nongreedy_nullable(body.split(b'\n')[0]): continue
+            return fid
     return None
 
 def known_witnesses():
